@@ -30,7 +30,7 @@ pub static INFO: PropInfo = PropInfo {
         ("ack_ranges_64", 10),
     ],
     engines_quick: &["e1"],
-    engines_thorough: &["e1", "e2"],
+    engines_thorough: &["e1", "e2", "e4"],
     run,
 };
 
